@@ -411,8 +411,18 @@ func TestVerif_C19(t *testing.T) {
 		burst := []int{1, 2, 5, 10}[rng.Intn(4)]
 		ncomp := 1 + rng.Intn(3)
 		global := []int{ncomp * perIP, 2 * ncomp * perIP, 10, 50}[rng.Intn(4)]
-		cfg := RateLimiterConfig{GlobalRequestsPerSecond: global, PerIPRequestsPerSecond: perIP, PerIPBurstSize: burst,
-			PerConnectionRequestsPerSecond: []int{0, perIP}[rng.Intn(2)], PerConnectionBurstSize: burst, CleanupInterval: time.Hour,
+		// three shapes: no per-connection limit; one equal to the per-IP limit; and a tight
+		// per-connection limit under a generous per-IP limit (the abuser is then refused by
+		// its connection's limit while its address is still within limits)
+		connRate, connBurst, ipRate, ipBurst := 0, burst, perIP, burst
+		switch s % 3 {
+		case 1:
+			connRate = perIP
+		case 2:
+			connRate, ipRate, ipBurst = perIP, perIP*100, burst*100
+		}
+		cfg := RateLimiterConfig{GlobalRequestsPerSecond: global, PerIPRequestsPerSecond: ipRate, PerIPBurstSize: ipBurst,
+			PerConnectionRequestsPerSecond: connRate, PerConnectionBurstSize: connBurst, CleanupInterval: time.Hour,
 			ReadLargeOpsPerSecond: 1, WriteLargeOpsPerSecond: 1, ReaddirOpsPerSecond: 1, MountOpsPerMinute: 1}
 		factor := []int{3, 10, 50}[rng.Intn(3)]
 		// one virtual second is sliced into ticks; per tick the abuser sends `factor` requests
@@ -460,7 +470,7 @@ func TestVerif_C19(t *testing.T) {
 		} else if viol != "" {
 			rec.Violate("C19/"+viol, fmt.Sprintf("scenario %d step %d", s, at), map[string]any{"config": cfg, "events": evs[:at+1]})
 		}
-		rec.Distinct(fmt.Sprintf("global/compliant-load=%d|factor=%d|conn-limit=%v|compliant-refused=%v", global/(ncomp*perIP), factor, cfg.PerConnectionRequestsPerSecond > 0, compRefused > 0))
+		rec.Distinct(fmt.Sprintf("global/compliant-load=%d|factor=%d|limit-shape=%d|compliant-refused=%v", global/(ncomp*perIP), factor, s%3, compRefused > 0))
 		if s == 0 {
 			rec.Sample(map[string]any{"config": cfg, "first_events": evs[:15], "decisions": dec[:15]})
 		}
